@@ -19,6 +19,11 @@ type Subscription struct {
 	sub   Subscriber
 	field *Field
 	args  map[string]interface{}
+
+	// ftype is the type of the subscribed field, the type events are
+	// resolved against. It is kept here and not on the field since the
+	// field belongs to the parsed request which may be resolved again.
+	ftype Type
 }
 
 // NewSubscription creates a new subscription. It should be called in a
@@ -32,5 +37,5 @@ func NewSubscription(sub Subscriber, field *Field, args map[string]interface{}) 
 }
 
 func (sub *Subscription) prep(root *Root) {
-	sub.field.ConType = root.getFieldType(sub.field.ConType, sub.field.Name)
+	sub.ftype = root.getFieldType(sub.field.ConType, sub.field.Name)
 }
